@@ -240,7 +240,28 @@ pub fn c05(rng: &mut Rng, _tier: &str, idx: usize) -> Case {
         used.push(id);
         f.terms.push((id, gen_name(rng)));
     }
-    facts_to_prog(rng, &f, &ProgOpts { shuffle: true, failing_permille: 0, build_defaults: false, slot: 0 }, &mut c);
+    if idx % 3 == 1 {
+        // binary route: some members of the sets are flagged obsolete / replaced (scored like any term)
+        for (id, nm) in [(1u32, "All"), (118, "Phenotypic abnormality")] {
+            if !f.terms.iter().any(|t| t.0 == id) {
+                f.terms.push((id, nm.to_string()));
+            }
+        }
+        if !f.edges.contains(&(1, 118)) {
+            f.edges.push((1, 118));
+        }
+        let mut flags = gen_flags(rng, &mut f);
+        let all: Vec<u32> = f.terms.iter().map(|t| t.0).collect();
+        for id in &all {
+            if *id != 1 && *id != 118 && !flags.iter().any(|x| x.0 == *id) && rng.chance(1, 3) {
+                flags.push((*id, true, None));
+            }
+        }
+        c.stat("obsolete_or_replaced_terms", flags.len() as u64);
+        facts_to_fops(rng, &f, &flags, 3, 0, true, &mut c);
+    } else {
+        facts_to_prog(rng, &f, &ProgOpts { shuffle: true, failing_permille: 0, build_defaults: false, slot: 0 }, &mut c);
+    }
     let ids: Vec<u32> = f.terms.iter().map(|t| t.0).collect();
     let combs = ["funsimavg", "funsimmax", "bma"];
     // hand-built matrices: row count fixed by the case index, every column count 0..12
